@@ -71,6 +71,7 @@ var numLits = []string{
 	"1/2", "-7/3", "22/7", "123456789/1000000007",
 	"0.5", "-0.25", "0.1", "3.141592653589793", "1.0e10", "1.0e100", "-2.5e-7", "123456.789", "1.0e-300",
 	"0.1s0", "2.5s0", "-1.5s3", "1.5L0", "-0.25L0", "1.0d0", "6.02d23",
+	"#C(1 2)", "#C(0.5 -1.5)",
 }
 
 // #\; #\( #\" are not accepted by the reader (C02's concern)
@@ -165,7 +166,7 @@ var valueFeats = map[string][]string{
 	"number":     {"long-float-digits"},
 	"symbol":     {"plain-symbol"},
 	"list":       {"quote-in-list"},
-	"vector":     {"vector-grown", "not-adjustable", "nested-attr"},
+	"vector":     {"vector-grown", "not-adjustable", "nested-attr", "bit-vector-attrs"},
 	"array":      {"not-adjustable", "nested-attr"},
 	"hash-table": {"nested-attr"},
 }
@@ -218,6 +219,14 @@ func genValue(r *rand.Rand, kind, feat string) string {
 			return vecHistory(r, vecOpts{grown: true})
 		case feat == "not-adjustable":
 			return vecHistory(r, vecOpts{notAdj: true})
+		case feat == "bit-vector-attrs":
+			// a bit vector that is adjustable or has a fill pointer
+			n := 1 + r.IntN(9)
+			src := fmt.Sprintf("(make-array %d :element-type 'bit :initial-element %d", n, r.IntN(2))
+			if r.IntN(2) == 0 {
+				src += fmt.Sprintf(" :fill-pointer %d", r.IntN(n))
+			}
+			return src + ")"
 		case feat == "nested-attr":
 			// an element that is itself an object with attributes a literal cannot show
 			n := 1 + r.IntN(3)
@@ -244,6 +253,9 @@ func genValue(r *rand.Rand, kind, feat string) string {
 			return vecHistory(r, vecOpts{})
 		case feat == "plain-attrs":
 			return vecLit(r, 2)
+		case r.IntN(12) == 0:
+			// (a bit vector literal: not adjustable, no fill pointer)
+			return fw.Pick(r, []string{"#*1011", "#*", "#*0", "#*111000111000"})
 		case r.IntN(3) == 0:
 			n := 1 + r.IntN(5)
 			src := fmt.Sprintf("(make-array %d :initial-contents '%s", n, fixedList(r, n, 2))
